@@ -338,7 +338,8 @@ def gen_badnew(rng, cid):
     return Case(cid, [], ops, tag="fi-new-%d" % size)
 
 
-SIZES_SMALL = [8, 8, 16, 16, 32, 64]
+# 1, 2, 4: constructor arguments below the minimal map size (clamped to 8 slots; lg_max_map_size must be clamped too)
+SIZES_SMALL = [8, 8, 16, 16, 32, 64, 1, 2, 4]
 SIZES_MED = [128, 256]
 SIZES_BIG = [512, 1024, 2048]
 KINDS = ["uniform", "zipf", "distinct", "equal"]
@@ -467,7 +468,7 @@ def gen_codec(rng, cid, tier, purge):
     purge=False: the whole case holds fewer distinct items than the smallest capacity, so no purge ever happens and the
     twins must agree on everything.  purge=True: the continuation crosses resizes and purges; a divergence after a purge
     is the known finding C11-freq-layout-not-carried (the image does not carry the slot layout)."""
-    size = rng.choice([8, 8, 16, 16, 32, 64, 128, 256] + ([512, 1024, 2048] if rng.random() < 0.25 else []))
+    size = rng.choice([8, 8, 16, 16, 32, 64, 128, 256, 1, 2, 4] + ([512, 1024, 2048] if rng.random() < 0.25 else []))
     cap = cap_of(size)
     psize = rng.choice([size, size, 8, 64])
     ops = [(0, [0, size]), (0, [2, psize])]
@@ -1014,17 +1015,18 @@ def gen(rng, tier, n=None, focus=None):
     if focus == "extremes":
         n = n or (16 if tier == "quick" else 120)
         # (the list-based table model costs ~40 s for one 2048-slot case of the thorough tier: one of those, no 4096)
-        plan = [8, 8, 16, 2048 if tier == "thorough" else 1024, "heavy", "heavy", "huge-config"]
+        plan = [8, 8, 16, 2048 if tier == "thorough" else 1024, "heavy", "heavy", "huge-config", 1, 2, 4]
         while len(plan) < n:
-            plan.append(rng.choice([8, 8, 8, 16, 16, 32, 64, "heavy", "huge-config"] + ([256, 1024] if tier == "thorough" else [])))
+            plan.append(rng.choice([8, 8, 8, 16, 16, 32, 64, 1, 2, 4, "heavy", "huge-config"] + ([256, 1024] if tier == "thorough" else [])))
         return [gen_extremes(rng, i, tier, w) for i, w in enumerate(plan[:n])]
     if focus == "size":
         n = n or (10 if tier == "quick" else 24)
         top = 13 if tier == "quick" else 17
         # (big maps: every purge costs ~0.4 s in the list-based table model, so their streams stop at 2^13 / 2^14)
-        plan = [(8, top), (16, top), (64, top), (2048, 12 if tier == "quick" else 13), (1024, 12 if tier == "quick" else 13)]
+        plan = [(8, top), (16, top), (64, top), (2048, 12 if tier == "quick" else 13), (1024, 12 if tier == "quick" else 13),
+                (1, 10), (2, 10), (4, 11)]      # below the minimal map size: an 8-slot map, lg_max_map_size 3, capacity 6
         while len(plan) < n:
-            size = rng.choice([8, 8, 16, 32, 128, 256, 512])
+            size = rng.choice([8, 8, 16, 32, 128, 256, 512, 1, 2, 4])
             plan.append((size, rng.randint(8, top if size < 128 else min(top, 13))))
         return [gen_size(rng, i, tier, s, l) for i, (s, l) in enumerate(plan[:n])]
     n = n or (70 if tier == "quick" else 500)
@@ -1039,6 +1041,9 @@ def gen(rng, tier, n=None, focus=None):
     for size in SIZES_MED:
         plan += [("single", size, k) for k in (KINDS if tier == "thorough" else rng.sample(KINDS, 2))]
     plan += [("d6", s, None) for s in (8, rng.choice([16, 32, 64]))]
+    # constructor arguments below the minimal map size, then used like any other sketch
+    plan += [("single", 1, rng.choice(KINDS)), ("single", 2, "distinct"), ("single", 4, rng.choice(["uniform", "zipf"])),
+             ("merge", [4, 2, 8], None), ("d6", 4, None)]
     plan += [("heavy", 8, None), ("heavy", rng.choice([16, 32, 64, 128]), None)]
     plan += [("images", None, None), ("badnew", None, None), ("strings", None, None), ("strings", None, None)]
     nskel = len(plan)
